@@ -34,4 +34,15 @@ PROPS = {
   'explanation': 'All six clauses are proved for every z <= 31, x,y < 2^z and every id < base 32 on the Go-level model with explicit wrap-around; '
                  'the model is compared with ZxyToID/IDToZxy/ParentID on every generated case and the implementation is checked against an independent recursive Hilbert index.',
  },
+ 'C02': {
+  'uses_generated': True,
+  'rule': 'random headers (every 64-bit field at 0, 2^64-1, single bits, random; int32 fields at 0, -1, min, max, E7 range, random; all enum bytes) '
+          'serialized; spec-encoded headers (versions 0..3) decoded; random 127-byte strings with valid magic, single-byte corruptions (magic, version, '
+          'clustered byte, any), versions > 3, garbage, short and long inputs. All cases count as non-trivial; distinct by case line',
+  'trusted_base': ['Spec.layout (coq/Model/Header.v) is the transcription of the v3 specification header table',
+                   'tools/gotables recognises each statement of SerializeHeader/DeserializeHeader by shape and reports any statement it does not understand as a translator gap'],
+  'assumptions': [],
+  'explanation': 'C02_layout_ser/deser tie the regenerated tables to the specification; round trips, byte layout, length and rejection are proved for all headers / all byte strings; '
+                 'the table interpreter is compared byte-for-byte and field-for-field with SerializeHeader/DeserializeHeader including the panic on short input.',
+ },
 }
